@@ -12,7 +12,7 @@ TECHNIQUE = 'Lean 4: contiguity theorems for the value collectors (result = give
 LEAN_TARGET = "CxxModel.Props.C14"
 THEOREMS = ["Cxx.C14_balanced_contiguous", "Cxx.C14_value_until_contiguous", "Cxx.C14_value_stops", "Cxx.C14_create_value", "Cxx.C14_inner", "Cxx.C14_value_sites",
             "Cxx.tokLoop_contiguous", "Cxx.tokLoop_complete", "Cxx.consumeBalanced_region", "Cxx.interp_bind", "Cxx.C14_method_noexcept_value", "Cxx.C14_enumerator_values", "Cxx.C14_variable_initializer", "Cxx.C14_unfused_chars", "Cxx.C14_unfused_none", "Cxx.C14_default_argument", "Cxx.C14_initializer_general", "Cxx.toplevel_variable_init_pre"]
-ANCHORS = ["parser.py:CxxParser._consume_value_until", "parser.py:CxxParser._consume_balanced_tokens", "parser.py:CxxParser._create_value",
+ANCHORS = ["lexer.py:LexerTokenStream._fill_tokbuf", "parser.py:CxxParser._parse_template_specialization", "parser.py:CxxParser._consume_value_until", "parser.py:CxxParser._consume_balanced_tokens", "parser.py:CxxParser._create_value",
            "parser.py:CxxParser._parse_fn_end", "parser.py:CxxParser._parse_method_end", "parser.py:CxxParser._parse_array_type",
            "parser.py:CxxParser._parse_pqname_decltype_specifier", "parser.py:CxxParser._parse_requires", "parser.py:CxxParser._parse_requires_segment",
            "parser.py:CxxParser._parse_requires_expr", "parser.py:CxxParser._process_pragma_directive", "parser.py:CxxParser._parse_enumerator_list",
@@ -114,10 +114,13 @@ def render(rng, toks, line):
     if line:
         return " ".join(toks)
     out = []
-    for t in toks:
+    for k, t in enumerate(toks):
         out.append(t)
-        out.append(rng.choice([" ", " ", " ", " ", "\n", "  ", " /* c */ ", "\t"]))
-    return "".join(out).rstrip()
+        # (a line splice directly behind a token, without a blank, is layout too)
+        sep = rng.choice([" ", " ", " ", " ", "\n", "  ", " /* c */ ", "\t", "\\\n", " \\\n  ", "\\\n\t"])
+        if k + 1 < len(toks):
+            out.append(sep)
+    return "".join(out)
 
 
 def render_tight(toks):
@@ -186,6 +189,23 @@ def run(ctx):
                 fails.append({"input": src, "diff": "a position without an expression exposes %r" % [toks_of(g) for g in got]})
         except Exception as e:  # noqa
             fails.append({"input": src, "diff": "position not found: %r" % e})
+    # pack sizes inside template arguments: the argument is exactly the written tokens
+    sz = ["sizeof", "...", "(", "Ts", ")"]
+    for operand in (["N"], ["::", "N"], ["1"], ["a", "::", "b"], ["const_v"], ["(", "N", ")"], ["unsigned", "(", "3", ")"]):
+        for op in ("+", "*", "-", "%"):
+            # (an expression that CONTINUES after `sizeof...(pack)` is rejected by the parser today: not a value position)
+            for toks in (operand + [op] + sz, sz, ["("] + operand + [op] + sz + [")", op] + operand):
+                for tmpl, getv in (("template <typename... Ts> struct S { Foo<%s> m; };\nint after;\n", lambda d: seg0(ns(d).classes[0].fields[0].type).specialization.args[0].arg),
+                                   ("template <typename... Ts> void f(Bar<int, %s> p);\nint after;\n", lambda d: seg0(ns(d).functions[0].parameters[0].type).specialization.args[1].arg),
+                                   ("template <typename... Ts> using A = Baz<%s, char>;\nint after;\n", lambda d: seg0(ns(d).using_alias[0].type).specialization.args[0].arg)):
+                    text = tmpl % " ".join(toks)
+                    texts.append(text)
+                    try:
+                        got = toks_of(getv(parse_string(text)))
+                        if got != toks:
+                            fails.append({"input": text, "expr": toks, "diff": "value tokens %r, expected %r" % (got, toks)})
+                    except (CxxParseError, AttributeError, IndexError, KeyError) as e:
+                        fails.append({"input": text, "expr": toks, "diff": "template argument with a pack size rejected / not a value: %s" % str(e)[:150]})
     ntight = ntight_rejected = 0
     for i in range(n):
         tmpl, get, wrap, line, noangle = P[i % len(P)]
